@@ -304,13 +304,41 @@ fn zero_slots(rng: &mut Rng) -> String {
     out
 }
 
+/// Path of `to` as written in an include line of file `from` (both relative to the tree root),
+/// in one of several spellings: plain relative, `./`-prefixed, with a `..` detour through the
+/// including file's own directory (so that cycles exist whose every edge contains `..`), absolute.
+fn spell_include(from: &str, to: &str, style: u64) -> String {
+    let from_dir: Vec<&str> = from.split('/').rev().skip(1).collect::<Vec<_>>().into_iter().rev().collect();
+    let to_parts: Vec<&str> = to.split('/').collect();
+    let mut common = 0;
+    while common < from_dir.len() && common + 1 < to_parts.len() && from_dir[common] == to_parts[common] {
+        common += 1;
+    }
+    let mut rel: Vec<String> = Vec::new();
+    for _ in common..from_dir.len() {
+        rel.push("..".into());
+    }
+    for p in &to_parts[common..] {
+        rel.push(p.to_string());
+    }
+    let rel = rel.join("/");
+    match style {
+        0 => rel,
+        1 => format!("./{}", rel),
+        2 => match from_dir.last() {
+            Some(own) => format!("../{}/{}", own, rel),
+            None => format!("sub/../{}", rel),
+        },
+        _ => format!("/mem/{}", to),
+    }
+}
+
 fn include_graph(rng: &mut Rng) -> (Vec<(String, String)>, String) {
-    let names = ["/mem/root.ledger", "/mem/a.ledger", "/mem/sub/b.ledger", "/mem/sub/c.ledger", "/mem/sub/deep/d.ledger"];
-    let n = 2 + rng.usize(4);
-    let targets = [
-        "a.ledger", "root.ledger", "sub/b.ledger", "sub/*.ledger", "*.ledger", "../a.ledger", "../root.ledger", "b.ledger",
-        "c.ledger", "deep/d.ledger", "missing.ledger", "sub/**/*.ledger", "**/*.ledger", "[", "./a.ledger", "../sub/b.ledger",
-        "/mem/a.ledger", "", "sub/", "*",
+    let names = ["root.ledger", "a.ledger", "sub/b.ledger", "sub/c.ledger", "sub/deep/d.ledger", "other/e.ledger"];
+    let n = 2 + rng.usize(5);
+    let junk = [
+        "sub/*.ledger", "*.ledger", "missing.ledger", "sub/**/*.ledger", "**/*.ledger", "[", "", "sub/", "*", "../*/*.ledger",
+        "../missing/../a.ledger", "other/../sub/?.ledger",
     ];
     let mut files = Vec::new();
     for (i, name) in names.iter().enumerate().take(n) {
@@ -318,12 +346,18 @@ fn include_graph(rng: &mut Rng) -> (Vec<(String, String)>, String) {
         let k = rng.usize(4);
         for j in 0..k {
             if rng.chance(1, 2) {
-                content.push_str(&format!("include {}\n\n", rng.pick(&targets)));
+                let target = if rng.chance(1, 4) {
+                    rng.pick(&junk).to_string()
+                } else {
+                    let to = names[rng.usize(n)];
+                    spell_include(name, to, rng.below(4))
+                };
+                content.push_str(&format!("include {}\n\n", target));
             } else {
                 content.push_str(&format!("2024/01/0{} f{} t{}\n    A    {} USD\n    B\n\n", 1 + j, i, j, 1 + j));
             }
         }
-        files.push((name.to_string(), content));
+        files.push((format!("/mem/{}", name), content));
     }
     (files, "/mem/root.ledger".to_string())
 }
@@ -559,7 +593,7 @@ impl Check for C06 {
             let joined: String = files.iter().map(|(p, c)| format!("=== {}\n{}", p, c)).collect();
             rec.nontrivial(&joined);
             rec.count("family:include-graph");
-            if i % 10 == 0 {
+            if i % 3 == 0 {
                 // the same tree on the real file system, through the production loader
                 let dir = ctx.scratch.join("c06inc");
                 let _ = std::fs::remove_dir_all(&dir);
@@ -582,7 +616,7 @@ impl Check for C06 {
                 if let Some(t) = r {
                     rec.count(&format!("real-fs-include:{}", t));
                 }
-                if i % 50 == 0 {
+                if i % 30 == 0 {
                     let p = real_root.to_str().unwrap().to_string();
                     for cmd in [vec!["primitive", "flatten", &p], vec!["balance", "--now", "2024-06-01", &p]] {
                         rec.op(&format!("okane {}", cmd[0]), &joined);
